@@ -191,6 +191,9 @@ func caseC14(c *Ctx) {
 		if out.Hang || out.StepCap {
 			fail("C14:no-return-under-"+strings.SplitN(f.kind, "-", 2)[0]+"-failure:"+mode+":"+leakOrCallerSite(out), "%s with %s at %d never returned\n%s", opk, f.kind, f.k, hangDetail(out))
 		}
+		if strings.HasPrefix(f.kind, "reader") && !out.ReaderFired && out.Err == nil && !malformed {
+			fail("C14:input-not-read:"+mode+":"+op.Kind, "%s returned nil without ever reading as far as byte %d of %d, where the reader would have failed (the input was not consumed)", opk, f.k, L)
+		}
 		if out.ReaderFired {
 			if out.Err == nil {
 				fail("C14:reader-error-swallowed:"+mode+":"+op.Kind, "%s: the reader failed after byte %d of %d and the call returned nil", opk, f.k, L)
